@@ -225,6 +225,7 @@ type apiReq struct {
 	Multipart string `json:"multipart,omitempty"`  // "", "file:<part content type>" or "nofile"
 	ReqID     string `json:"request_id,omitempty"` // X-Request-ID header
 	Note      string `json:"note,omitempty"`
+	Src       string `json:"src,omitempty"` // "clean": a payload that is valid on its own (built, canonical) - see apirun.go
 }
 
 type apiResp struct {
